@@ -60,8 +60,8 @@ def source_rule(report=None, status=None):
     if rule is None:
         rule = live_rule
     elif rule != live_rule and status is not None:
+        # keep `rule`: it is what the theorems of this run were built against
         status.problem("translator", f"min-rule read from the source ({rule}) differs from the live function ({live_rule})")
-        rule = live_rule if False else rule  # keep what the theorems were built against
     if report is not None:
         report.translator_checks += 1
     _RULE["value"] = rule
@@ -284,6 +284,15 @@ def arm_trigger(dist, bad):
     return f"{bad.get('sub')}_{bad.get('side')}"
 
 
+def fail(report, clause, trigger, case, impl=None, detail=""):
+    """`report.fail`, but at most 3 failures per (clause, trigger): a known finding that fires on many cases
+    must not fill the report's cap and hide a different failure"""
+    n = sum(1 for f in report.failures if f["clause"] == clause and f["trigger"] == trigger)
+    report.count(f"spec_failure:{clause}:{trigger}")
+    if n < 3:
+        report.fail(clause, trigger, case, impl, detail)
+
+
 # --------------------------------------------------------------------------------------------
 # the three checks
 # --------------------------------------------------------------------------------------------
@@ -310,7 +319,7 @@ def check_arms(ctx, report, case, label, rule):
     if not m["in_image"]:
         report.disagree("cross_support_model_arms_leave_image", case, impl_l, m["coded"])
     for b in m["bad"]:
-        report.fail("arms", arm_trigger(dist, b), case, impl_l, json.dumps(b))
+        fail(report, "arms", arm_trigger(dist, b), case, impl_l, json.dumps(b))
 
 
 def check_steps(ctx, report, case, label):
@@ -340,11 +349,11 @@ def check_steps(ctx, report, case, label):
             nfacing += 1
             trig = f"steps_{'shifted' if case['Wr'] != W else 'pixel'}"
             if impl_out["sum2"][y][x] != m["spec_h"][y][x]:
-                report.fail("region_combined_min_arms", trig, case, impl_out, f"cell ({y},{x}) horizontal arms {impl_out['sum2'][y][x]} expected {m['spec_h'][y][x]}")
+                fail(report, "region_combined_min_arms", trig, case, impl_out, f"cell ({y},{x}) horizontal arms {impl_out['sum2'][y][x]} expected {m['spec_h'][y][x]}")
             if impl_out["sum4"][y][x] != m["spec_count"][y][x]:
-                report.fail("divided_by_region_size", trig, case, impl_out, f"cell ({y},{x}) count {impl_out['sum4'][y][x]} region has {m['spec_count'][y][x]} pixels")
+                fail(report, "divided_by_region_size", trig, case, impl_out, f"cell ({y},{x}) count {impl_out['sum4'][y][x]} region has {m['spec_count'][y][x]} pixels")
             if impl_out["step4"][y][x] != m["spec_sum"][y][x]:
-                report.fail("sum_over_region", trig, case, impl_out, f"cell ({y},{x}) sum {impl_out['step4'][y][x]} region sum {m['spec_sum'][y][x]}")
+                fail(report, "sum_over_region", trig, case, impl_out, f"cell ({y},{x}) sum {impl_out['step4'][y][x]} region sum {m['spec_sum'][y][x]}")
     if nfacing:
         report.hit("sum_over_region", nfacing)
         report.hit("divided_by_region_size", nfacing)
@@ -402,7 +411,7 @@ def check_full(ctx, report, case, label, rule, independence=False, direct=False)
     if [c.tolist() for c in cr] != m["armsR"]:
         report.disagree("computes_cross_supports.right", case, [c.tolist() for c in cr], m["armsR"])
     for b in m["bad_arms"]:
-        report.fail("arms", arm_trigger(dist, b), case, {"cross_left": cl.tolist()}, json.dumps(b))
+        fail(report, "arms", arm_trigger(dist, b), case, {"cross_left": cl.tolist()}, json.dumps(b))
     # ---- margin untouched
     for y in range(H):
         for x in range(W):
@@ -410,7 +419,7 @@ def check_full(ctx, report, case, label, rule, independence=False, direct=False)
                 continue
             for k in range(len(disp)):
                 if not same_f32(out[y, x, k], cv_in[y, x, k]):
-                    report.fail("nan_stays" if np.isnan(cv_in[y, x, k]) else "sum_over_region", "margin_changed", case,
+                    fail(report, "nan_stays" if np.isnan(cv_in[y, x, k]) else "sum_over_region", "margin_changed", case,
                                 core.enc(out.astype(np.float64)), f"cell ({y},{x},{k}) of the margin changed")
     # ---- cells
     n_nan = n_num = n_out = 0
@@ -432,11 +441,11 @@ def check_full(ctx, report, case, label, rule, independence=False, direct=False)
                 if np.isnan(vin):
                     n_nan += 1
                     if not np.isnan(v):
-                        report.fail("nan_stays", full_trigger(case, False), case, core.enc(out.astype(np.float64)),
+                        fail(report, "nan_stays", full_trigger(case, False), case, core.enc(out.astype(np.float64)),
                                     f"cell ({y + off},{x + off},{k}) was NaN, is {v}")
                     continue
                 if np.isnan(v):
-                    report.fail("no_new_nan", full_trigger(case, False), case, core.enc(out.astype(np.float64)),
+                    fail(report, "no_new_nan", full_trigger(case, False), case, core.enc(out.astype(np.float64)),
                                 f"cell ({y + off},{x + off},{k}) was {vin}, is NaN")
                     continue
                 if not pl["facing"][x]:
@@ -444,7 +453,7 @@ def check_full(ctx, report, case, label, rule, independence=False, direct=False)
                     continue
                 n_num += 1
                 if not same_f32(v, es):
-                    report.fail("sum_over_region", full_trigger(case, same_f32(v, ec)), case, core.enc(out.astype(np.float64)),
+                    fail(report, "sum_over_region", full_trigger(case, same_f32(v, ec)), case, core.enc(out.astype(np.float64)),
                                 f"cell ({y + off},{x + off},{k}) is {v}; region sum/count = {pl['spec'][y][x]}")
     report.hit("nan_stays", n_nan)
     report.hit("no_new_nan", n_num)
@@ -473,7 +482,7 @@ def check_full(ctx, report, case, label, rule, independence=False, direct=False)
         report.hit("plane_independent")
         a, b = out[:, :, keep], out2[:, :, keep]
         if not np.array_equal(a, b, equal_nan=True):
-            report.fail("plane_independent", f"other_planes_changed_subpix{case['subpix']}", case, core.enc(out2.astype(np.float64)),
+            fail(report, "plane_independent", f"other_planes_changed_subpix{case['subpix']}", case, core.enc(out2.astype(np.float64)),
                         f"plane {keep} changed when the other planes were modified")
     # ---- the tabulated driver path equals the literal definition `aggregate`
     if direct:
@@ -611,4 +620,4 @@ def replay(ctx, report, path):
     for d in report.disagreements[:5]:
         print("disagreement:", json.dumps(d, default=str)[:600])
     print("replayed: failures=%d (known %d) disagreements=%d" % (len(report.failures), len(report.failures) - len(unknown), len(report.disagreements)))
-    return 1 if unknown else 0
+    return 1 if report.failures else 0
